@@ -10,6 +10,8 @@ sampled by the harness (partial, see notes/C13.md).
 import Rustic.Lemmas.Streamer
 import Rustic.Lemmas.Packer
 import Rustic.Lemmas.ArchiveDedup
+import Rustic.Lemmas.SnapshotArchive
+import Rustic.Lemmas.TreeIter
 namespace Rustic.Props.C13
 open Rustic.Tree Rustic.Parent Rustic.Archive
 
@@ -187,6 +189,39 @@ theorem treeId_independent_of_index {γ} (H : List Node → Id) (chunk : γ → 
     · simp [e0, e1]
     · simp only [e0, e1, Option.map_some, TA.finalize, List.filter_nil, List.head?_nil]
       rw [(backupTree_id H ht0 t0 _).1, (backupTree_id H ht1 t1 _).1, hs.1]
+
+/-- (6) **The tree id is a function of the source and the chunker only** — stated on the source: for every source forest
+walked by the real `TreeIterator` model, every index state (`hasData`, `hasTree`), every stored parent forest `load`
+(unused without parents) and every option set, the archiver's root id is `H` of the node list that `Snapshot.saveL`
+computes from the forest alone (names, types, link targets, metadata, chunk ids of the contents under `chunks`, sub-tree
+ids); the chunks it references are those of `saveL`; what it UPLOADS (`treeAdds`, `dataAdds`) is that same set minus what
+the index has.  With `stored_set_schedule_independent` (pack boundaries, delays) the snapshot's id and blob set do not
+depend on scheduling, latency, pack sizes or the index. -/
+theorem snapshot_is_function_of_source (H : List Node → Id) (hash : RoundTrip.Bytes → Id)
+    (chunks : RoundTrip.Bytes → List RoundTrip.Bytes) (load : Id → Option (List Node)) (hasData hasTree : Id → Bool)
+    (o : Opts) (src : List Snapshot.STree) (hw : Snapshot.WalkableL src) :
+    ∃ a, archive H (fun d => (chunks d).map hash) List.length load hasData hasTree o []
+        (treeItems (Snapshot.entriesL [] src)) = some a ∧
+      a.root = H (Snapshot.saveL H hash chunks Snapshot.noTree src).nodes ∧
+      (∀ i, i ∈ a.dataAdds ↔ i ∈ (Snapshot.saveL H hash chunks Snapshot.noTree src).chunks.map hash ∧ hasData i = false) ∧
+      (∀ t ∈ a.treeAdds, hasTree t.1 = false) := by
+  rw [Snapshot.tree_iterator_items src hw]
+  obtain ⟨a, ha, hroot, htrees, hdata⟩ := Snapshot.archive_eq_save H hash chunks load hasData hasTree o src
+  have hind := Snapshot.saveL_indep H hash chunks hasTree Snapshot.noTree src
+  refine ⟨a, ha, by rw [hroot, hind.1], ?_, ?_⟩
+  · intro i
+    rw [hdata, hind.2, List.mem_filter]
+    simp
+  · intro t ht
+    rw [htrees] at ht
+    rcases List.mem_append.mp ht with ht | ht
+    · exact Snapshot.saveL_trees_new H hash chunks hasTree src t ht
+    · split at ht
+      · cases ht
+      · rename_i hh
+        simp only [List.mem_singleton] at ht
+        subst ht
+        simpa using hh
 
 /-! ### Non-vacuity -/
 
